@@ -43,6 +43,9 @@ RandF(V)   == [c \in Cells |-> RandomElement(V)]
 Compact(f) == IF Margin = 0 THEN f ELSE [c \in Cells |-> IF InInterior(c, Margin) THEN f[c] ELSE 0]
 TieFree(u) == \A k \in 1..D : \A c \in Cells : (c[Ax(k)] < Shape[Ax(k)]) => u[k][c] + u[k][Sh(c, k, 1)] # 0
 
+\* tie-freeness is guaranteed by construction: no two admissible velocity samples cancel
+ASSUME NoTies => \A a \in UVals, b \in UVals : a + b # 0
+
 Init == /\ pc = "pick" /\ comp = 1 /\ om = <<>> /\ vel = <<>> /\ frc = <<>> /\ buf = <<>> /\ time = 0 /\ post = <<>> /\ scale = 1
         /\ init = [om |-> <<>>, vel |-> <<>>, frc |-> <<>>]
 
@@ -52,7 +55,6 @@ Pick == /\ pc = "pick"
         /\ vel' = [k \in 1..D |-> RandF(UVals)]
         /\ frc' = [k \in 1..D |-> IF Forcing THEN Compact(RandF(UVals)) ELSE Zero]
         /\ buf' = [k \in 1..NB |-> RandF(-9..9)]
-        /\ (NoTies => TieFree(vel'))
         /\ init' = [om |-> om', vel |-> vel', frc |-> frc']
         /\ time' = 7 /\ post' = <<>> /\ scale' = 1 /\ comp' = 1
         /\ pc' = IF IsNS /\ Forcing THEN "force" ELSE IF Sim = "ns3" THEN "cross" ELSE "adv_reset"
@@ -137,7 +139,8 @@ RefTransport(o, u) ==
 RefDiffuse(o)   == [k \in 1..NC |-> DiffStep(o[k], PD)]
 RefFilter(o)    == IF Sim = "ns3" /\ FilterType # "off"
                    THEN [k \in 1..3 |-> Filter(FilterType, o[k], Zero, FilterOrder, 1).f] ELSE o
-RefOm    == RefFilter(RefDiffuse(RefTransport(RefForce(init.om, init.frc), init.vel)))
+RefOmOf(o, u, f) == RefFilter(RefDiffuse(RefTransport(RefForce(o, f), u)))
+RefOm    == RefOmOf(init.om, init.vel, init.frc)
 RefScale == (IF Adv THEN 6 ELSE 1) * (IF Sim = "ns3" /\ FilterType # "off" THEN Pow4(3 * FilterOrder) ELSE 1)
 RefPost  == IF IsNS THEN << <<"damp", ZoneWidth>>, <<"solve">>, <<"curl_half_inv_h_ring_reset">> >>
                          \o (IF FreeStream THEN << <<"add_free_stream">> >> ELSE <<>>)
@@ -154,6 +157,32 @@ Conserved == (pc = "done" /\ Margin > 0) => \A k \in 1..NC : Total(om[k]) = scal
 \* C18 (design level): nothing that a later step reads survives in scratch -- RefOm mentions no buffer; the
 \* machine equals RefOm for arbitrary initial buffer contents (Realises); stated separately for the record
 NoHiddenState == pc = "done" => om = RefOm
+
+-----------------------------------------------------------------------------
+(* C14: the grid symmetry group (axis permutations and mirrors) on cubic / square grids.             *)
+(* g = [perm |-> <<p1, ..>>, sgn |-> <<s1, ..>>]: physical axis k goes to axis perm[k], mirrored if     *)
+(* sgn[k] = -1.  Scalars are carried along, vectors have their components permuted and signed,       *)
+(* vorticity is a pseudo-scalar (2-D) / pseudo-vector (3-D): extra factor det(g).                      *)
+CONSTANT Group
+NSide == Shape[1]
+Src(g, d) == [a \in 1..D |-> LET k == D + 1 - a IN
+                 IF g.sgn[k] = 1 THEN d[Ax(g.perm[k])] ELSE NSide + 1 - d[Ax(g.perm[k])]]
+TScalar(g, f) == [d \in Cells |-> f[Src(g, d)]]
+InvP(g, j) == CHOOSE k \in 1..D : g.perm[k] = j
+TVector(g, v) == [j \in 1..D |-> LET k == InvP(g, j) IN [d \in Cells |-> g.sgn[k] * v[k][Src(g, d)]]]
+Inversions(p) == Cardinality({<<a, b>> \in (1..D) \X (1..D) : a < b /\ p[a] > p[b]})
+Det(g) == (IF Inversions(g.perm) % 2 = 0 THEN 1 ELSE -1) * (IF D = 2 THEN g.sgn[1] * g.sgn[2] ELSE g.sgn[1] * g.sgn[2] * g.sgn[3])
+TOm(g, o) == CASE Sim = "ns2" -> << [d \in Cells |-> Det(g) * o[1][Src(g, d)]] >>
+               [] Sim = "ns3" -> LET t == TVector(g, o) IN [j \in 1..3 |-> [d \in Cells |-> Det(g) * t[j][d]]]
+               [] Sim = "pt_scalar" -> << TScalar(g, o[1]) >>
+               [] OTHER -> TVector(g, o)
+Equivariant(g) == LET o == init.om  u == init.vel  f == init.frc
+                      to == DeepV(TOm(g, o))  tu == DeepV(TVector(g, u))  tf == DeepV(TVector(g, f))
+                      lhs == DeepV(RefOmOf(to, tu, tf))
+                      r   == DeepV(RefOm)
+                      rhs == DeepV(TOm(g, r))
+                  IN  lhs = rhs
+EquivariantAll == pc = "force_or_first" \/ (pc = "done" => \A g \in Group : Equivariant(g))
 
 EmitDone == (pc = "clock" /\ pc' = "done") =>
     PrintT(<<"EMIT", ToJson([sim |-> Sim, shape |-> Shape, om0 |-> [k \in 1..NC |-> Arr(init.om[k])],
